@@ -1,5 +1,5 @@
 SPECIFICATION Spec
 CONSTANTS
   Dev = {}
-INVARIANTS OpDecl Symmetric Reflexive NoCross PlusNatural Emit
+INVARIANTS Emit OpDecl Symmetric Reflexive NoCross PlusNatural
 CHECK_DEADLOCK FALSE
